@@ -18,37 +18,49 @@ def find_chain(points: Sequence[np.ndarray], grads: Sequence[np.ndarray], sk: np
     sk[j] == points[i_{j+1}] - points[i_j] and yk[j] == grads[i_{j+1}] - grads[i_j]
     (bitwise when the tolerances are 0).  Returns (chain, "") or (None, reason)."""
     m = sk.shape[0]
-    chain = [end]
-    cur = end
-    for j in range(m - 1, -1, -1):
-        found = None
+
+    def matches(cur, i, j):
+        ds = points[cur] - points[i]
+        ok_s = np.array_equal(ds, sk[j]) if tol_s == 0.0 else bool(np.max(np.abs(ds - sk[j])) <= tol_s)
+        if not ok_s:
+            return False, False
+        dy = grads[cur] - grads[i]
+        ok_y = np.array_equal(dy, yk[j]) if tol_y == 0.0 else bool(np.max(np.abs(dy - yk[j])) <= tol_y)
+        return True, ok_y
+
+    # depth-first with backtracking: at huge magnitudes two earlier points can both reproduce a pair bit for bit
+    # (their distance is below one ulp of the step), and only one of them continues to a complete chain
+    why = [""]
+    budget = [20000]
+
+    def search(cur, j):
+        if j < 0:
+            return [cur]
         s_near = None
         for i in range(cur - 1, -1, -1):
-            ds = points[cur] - points[i]
-            if tol_s == 0.0:
-                ok_s = np.array_equal(ds, sk[j])
-            else:
-                ok_s = bool(np.max(np.abs(ds - sk[j])) <= tol_s)
+            budget[0] -= 1
+            if budget[0] < 0:
+                return None
+            ok_s, ok_y = matches(cur, i, j)
             if not ok_s:
                 continue
             s_near = i
-            dy = grads[cur] - grads[i]
-            if tol_y == 0.0:
-                ok_y = np.array_equal(dy, yk[j])
-            else:
-                ok_y = bool(np.max(np.abs(dy - yk[j])) <= tol_y)
             if ok_y:
-                found = i
-                break
-        if found is None:
+                rest = search(i, j - 1)
+                if rest is not None:
+                    return rest + [cur]
+        if not why[0]:
             if s_near is not None:
                 dy = grads[cur] - grads[s_near]
-                return None, (f"pair {j}: s equals visited point #{cur} - #{s_near} but y differs from the difference of the gradients returned there "
-                              f"(max dev {float(np.max(np.abs(dy - yk[j]))):.3e})")
-            return None, f"pair {j}: s={sk[j].tolist()} is not the difference between visited point #{cur} and any earlier visited point"
-        chain.append(found)
-        cur = found
-    chain.reverse()
+                why[0] = (f"pair {j}: s equals visited point #{cur} - #{s_near} but y differs from the difference of the gradients returned there "
+                          f"(max dev {float(np.max(np.abs(dy - yk[j]))):.3e})")
+            else:
+                why[0] = f"pair {j}: s={sk[j].tolist()} is not the difference between visited point #{cur} and any earlier visited point"
+        return None
+
+    chain = search(end, m - 1)
+    if chain is None:
+        return None, why[0]
     return chain, ""
 
 
